@@ -262,12 +262,12 @@ func init() {
 		// "tracking never changes forward values" for every operation, shape and argument of the grids of C03 / C04 / C05 /
 		// C06 / C14: those cases are executed tracked and with every input untracked; all tensors must be bit-identical
 		for _, g := range []struct {
-			mod string
-			np  int
-		}{{"Gen_C03", 2}, {"Gen_C04", 2}, {"Gen_C05", 2}, {"Gen_C06", 4}, {"Gen_C14", 1}, {"Gen_C02", 16}} {
+			mod     string
+			np, npT int // every np-th case (thorough grids are an order of magnitude larger; a whole one does not fit one TLC process)
+		}{{"Gen_C03", 1, 8}, {"Gen_C04", 2, 4}, {"Gen_C05", 2, 4}, {"Gen_C06", 4, 8}, {"Gen_C14", 1, 2}, {"Gen_C02", 16, 32}} {
 			np := g.np
 			if c.Thorough {
-				np = 2 * g.np // the thorough grids are an order of magnitude larger; a whole one does not fit one TLC process
+				np = g.npT
 			}
 			c.Logf("tracked vs untracked execution of the cases of %s (every %d-th case)", g.mod, np)
 			files, err := c.GenerateSample(g.mod, np, 30*time.Minute)
@@ -317,12 +317,12 @@ func init() {
 		// every slice handed to the library (nested data of every rank, dimension lists, ranges, tensor lists) overwritten
 		// right after the call; tensors and gradients must be bit-identical
 		for _, g := range []struct {
-			mod string
-			np  int
-		}{{"Gen_C06", 2}, {"Gen_C03", 2}, {"Gen_C04", 2}, {"Gen_C05", 2}, {"Gen_C02", 16}, {"Gen_C16", 1}} {
+			mod     string
+			np, npT int
+		}{{"Gen_C06", 2, 4}, {"Gen_C03", 2, 8}, {"Gen_C04", 2, 4}, {"Gen_C05", 2, 4}, {"Gen_C02", 16, 32}, {"Gen_C16", 1, 2}} {
 			np := g.np
 			if c.Thorough {
-				np = 2 * g.np // the thorough grids are an order of magnitude larger; a whole one does not fit one TLC process
+				np = g.npT
 			}
 			c.Logf("overwriting the caller's slices in the cases of %s (every %d-th case)", g.mod, np)
 			files, err := c.GenerateSample(g.mod, np, 30*time.Minute)
